@@ -88,3 +88,10 @@ Example C14_source_example :
   /\ ImpGen.imp_sequtil_TranslateReadingFrames 1 [] = GoSem.Ret [[]; []; []]
   /\ ImpProofs.all_bytes (bs "atgTAA").
 Proof. vm_compute. repeat split; repeat constructor. Qed.
+
+(* AminoName as translated (the case fold, the comma-ok lookup, the panic) answers like the
+   model for every byte. *)
+Theorem C14_amino_name_is_source : forall b, ImpProofs.is_byte b ->
+  ImpGen.imp_sequtil_AminoName b = ImpProofs.of_outcome (amino_name b).
+Proof. exact ImpProofs.imp_AminoName. Qed.
+Print Assumptions C14_amino_name_is_source.
